@@ -294,6 +294,20 @@ func MakeUtxo(sctx *context.StateCtx, metaHandle *meta.Meta, cachesize, tmplockS
 	return utxoVM, nil
 }
 
+// ReloadUtxoTotal restores the in-memory total from the value last written to
+// storage, dropping updates that went into a batch which was never written.
+func (uv *UtxoVM) ReloadUtxoTotal() error {
+	total := big.NewInt(0)
+	utxoTotalBytes, findTotalErr := uv.metaHandle.MetaTable.Get([]byte(UTXOTotalKey))
+	if findTotalErr == nil {
+		total.SetBytes(utxoTotalBytes)
+	} else if def.NormalizedKVError(findTotalErr) != def.ErrKVNotFound {
+		return findTotalErr
+	}
+	uv.utxoTotal = total
+	return nil
+}
+
 func (uv *UtxoVM) UpdateUtxoTotal(delta *big.Int, batch kvdb.Batch, inc bool) {
 	if inc {
 		uv.utxoTotal = uv.utxoTotal.Add(uv.utxoTotal, delta)
